@@ -61,7 +61,10 @@ inductive AV where
   | str                               -- the string a callee returns
   | lst (xs : List Int)
   | tup (xs : List Int)
-  | iter                              -- an iterator value
+  | iter                              -- an iterator value (bidirectional)
+  | gen                               -- the iterator of a generator (forward only)
+  | pmap                              -- a plain map value returned by a callee
+  | inner (next : Bool)               -- the auxiliary objects 60 (`@next`) / 61 (`@iterator`)
   | one (v : AV)                      -- a one-element list holding `v`
   | obj (n : Name)                    -- a map operand / layer (by identity)
   | host (n : Name) (gen : Nat)       -- host object; gen = number of `copy()` steps from the original
@@ -77,6 +80,13 @@ inductive AV where
 /-- what a callee returns -/
 inductive RV where
   | null | bool (b : Bool) | int (n : Int) | str | self | lst | tup | iter
+  | rng            -- the range `0..2`
+  | pmap           -- a plain map
+  | gen            -- the function is a generator (yields 20, 21): calling it gives an iterator; its
+                   -- body — hence its trace event — runs when the iterator is first advanced
+                   -- (generated only under `@iterator`)
+  | innerNext      -- another object (name 60) with `@next` counting 2
+  | innerIter      -- another object (name 61) whose own `@iterator` returns the list [20, 21]
   deriving DecidableEq, Repr, Inhabited
 
 def RV.toAV (self : AV) : RV → AV
@@ -88,6 +98,11 @@ def RV.toAV (self : AV) : RV → AV
   | .lst => .lst [20, 21]
   | .tup => .tup [20, 21]
   | .iter => .iter
+  | .rng => .prim .range
+  | .pmap => .pmap
+  | .gen => .gen
+  | .innerNext => .inner true
+  | .innerIter => .inner false
 
 /-- abstract behaviour of a function stored under a metakey (or of a host method) -/
 inductive Beh where
@@ -849,6 +864,27 @@ def hostIterate (h : HostD) (notIterable : Out) : Out :=
   | .forward n => hostDrive h .iteratorNext n
   | .bidirectional n => hostDrive h .iteratorNext n
 
+/-- The public `make_iterator` applied to the value an `@iterator` function returned, driven to its
+end (`t`: what was traced so far). Every iterable kind is converted — iterator, generator result,
+list, tuple, range, string, plain map, another object with `@next` or with its own `@iterator` —
+anything else is "expected Iterable" (a type error). -/
+def iterateResult (t : List Ev) : CallRes → Out
+  | .ret .iter => ⟨t, .ok (.lst [20, 21])⟩
+  | .ret .gen => ⟨t, .ok (.lst [20, 21])⟩
+  | .ret (.tup xs) => ⟨t, .ok (.lst xs)⟩
+  | .ret (.lst xs) => ⟨t, .ok (.lst xs)⟩
+  | .ret (.prim .range) => ⟨t, .ok (.lst [0, 1])⟩
+  | .ret .str => ⟨t, .ok .builtin⟩
+  | .ret .pmap => ⟨t, .ok .builtin⟩
+  | .ret (.inner true) =>
+    ⟨t ++ (List.range 3).map (fun _ => (⟨60, .mk .Next, .inner true, []⟩ : Ev)), .ok (.lst [10, 11])⟩
+  | .ret (.inner false) => ⟨t ++ [⟨61, .mk .Iterator, .inner false, []⟩], .ok (.lst [20, 21])⟩
+  -- `@iterator` returning the object itself: `make_iterator` re-enters without bound (native
+  -- recursion, stack overflow) — outside the generated envelope
+  | .ret (.obj _) => ⟨t, .err .diverge⟩
+  | .ret _ => ⟨t, .err .type⟩
+  | r => ⟨t, r.pass⟩
+
 /-- `for v in x` : `run_make_iterator` + `run_iterator_next`; result = the collected values -/
 def forLoop (o : Opd) : Out :=
   match o with
@@ -873,13 +909,11 @@ def forLoop (o : Opd) : Out :=
       | some (tag, mv) =>
         if mv == .nonCallable then ⟨[], .err .type⟩
         else
-          -- the callee's value is put into the iterator register *as is*
-          match invoke tag .Iterator mv m.av [] with
-          | (t, .ret .iter) => ⟨t, .ok (.lst [20, 21])⟩
-          | (t, .ret (.tup xs)) => ⟨t, .ok (.lst xs)⟩
-          | (t, .ret .str) => ⟨t, .ok .builtin⟩   -- strings are iterated in place
-          | (t, .ret _) => ⟨t, .err .type⟩        -- "expected Iterator" — lists included
-          | (t, r) => ⟨t, r.pass⟩
+          -- the callee's value is put into the iterator register; `run_iterator_next` iterates
+          -- iterators / ranges / tuples / strings / maps with `@next` in place and converts
+          -- everything else with `make_iterator` on first use (/repo bf483d2)
+          let (t, r) := invoke tag .Iterator mv m.av []
+          iterateResult t r
       | Option.none => ⟨[], .ok .builtin⟩       -- plain map iteration
   -- a host object that is not iterable is iterated *once* (like any single value), no error
   | .host h => hostIterate h ⟨[], .ok (.one h.av)⟩
@@ -907,16 +941,8 @@ def toList (o : Opd) : Out :=
         if mv == .nonCallable then ⟨[], .err .type⟩
         else
           -- `@iterator` is evaluated, then an iterator is made from its (iterable) result
-          match invoke tag .Iterator mv m.av [] with
-          | (t, .ret .iter) => ⟨t, .ok (.lst [20, 21])⟩
-          | (t, .ret (.tup xs)) => ⟨t, .ok (.lst xs)⟩
-          | (t, .ret (.lst xs)) => ⟨t, .ok (.lst xs)⟩
-          | (t, .ret .str) => ⟨t, .ok .builtin⟩
-          -- `@iterator` returning the object itself: `make_iterator` re-enters without bound
-          -- (native recursion, stack overflow) — outside the generated envelope
-          | (t, .ret (.obj _)) => ⟨t, .err .diverge⟩
-          | (t, .ret _) => ⟨t, .err .type⟩
-          | (t, r) => ⟨t, r.pass⟩
+          let (t, r) := invoke tag .Iterator mv m.av []
+          iterateResult t r
       | Option.none =>
         -- `KValue::is_iterable`: a map with a metamap is iterable only through `@iterator`/`@next`
         if m.top.metaOf.isSome then ⟨[], .err .type⟩ else ⟨[], .ok .builtin⟩
@@ -950,9 +976,16 @@ def reversed (o : Opd) : Out :=
         else
           match invoke tag .Iterator mv m.av [] with
           | (t, .ret .iter) => ⟨t, .ok (.lst [21, 20])⟩
+          -- generators are forward only; the generator's body (and its trace) never starts
+          | (_, .ret .gen) => ⟨[], .err .notReversible⟩
           | (t, .ret (.tup xs)) => ⟨t, .ok (.lst xs.reverse)⟩
           | (t, .ret (.lst xs)) => ⟨t, .ok (.lst xs.reverse)⟩
+          | (t, .ret (.prim .range)) => ⟨t, .ok (.lst [1, 0])⟩
           | (t, .ret .str) => ⟨t, .ok .builtin⟩
+          | (t, .ret .pmap) => ⟨t, .ok .builtin⟩
+          | (t, .ret (.inner true)) => ⟨t, .err .notReversible⟩   -- object 60 has no `@next_back`
+          | (t, .ret (.inner false)) =>
+            ⟨t ++ [⟨61, .mk .Iterator, .inner false, []⟩], .ok (.lst [21, 20])⟩
           | (t, .ret (.obj _)) => ⟨t, .err .diverge⟩
           | (t, .ret _) => ⟨t, .err .type⟩
           | (t, r) => ⟨t, r.pass⟩
